@@ -6,7 +6,10 @@ use rv_common::Rng;
 /// depositable resources are placeholders (0) that `instantiate` replaces by fresh ids.
 #[derive(Clone, Debug)]
 pub struct Case {
-    pub ops: Vec<Op>,
+    /// owner set-up transactions (executed once)
+    pub setup: Vec<Op>,
+    /// guarded deposits, each executed on the state right after the set-up (ledger snapshot)
+    pub deposits: Vec<GDep>,
 }
 
 const E18: u64 = 1_000_000_000_000_000_000;
@@ -111,16 +114,20 @@ fn gdep(variant: Variant, buckets: Vec<BucketSpec>, bc: &BadgeCombo) -> GDep {
     GDep { variant, buckets, entire_worktop: false, badge: bc.named.clone(), proofs: bc.proofs.clone(), placement: bc.placement, owner_signs: false, mint_source: false }
 }
 
-fn assemble(first: Vec<Step>, second: Vec<Step>, g: GDep) -> Case {
-    let mut ops = vec![];
+const CHUNK: usize = 24;
+
+/// One set-up, many deposits (split into chunks so that the shards stay balanced).
+fn assemble(out: &mut Vec<Case>, first: Vec<Step>, second: Vec<Step>, deposits: Vec<GDep>) {
+    let mut setup = vec![];
     if !first.is_empty() {
-        ops.push(Op::Setup(first));
+        setup.push(Op::Setup(first));
     }
     if !second.is_empty() {
-        ops.push(Op::Setup(second));
+        setup.push(Op::Setup(second));
     }
-    ops.push(Op::Deposit(g));
-    Case { ops }
+    for c in deposits.chunks(CHUNK) {
+        out.push(Case { setup: setup.clone(), deposits: c.to_vec() });
+    }
 }
 
 pub fn table() -> Vec<Case> {
@@ -130,15 +137,14 @@ pub fn table() -> Vec<Case> {
         for h in 0..N_HIST {
             for p in 0..N_PREF {
                 for k in 0..N_BADGE_LITE {
-                    for v in Variant::ALL {
-                        let (res, hist1, hist2) = hist_steps(h);
-                        let bc = badge_lite(k);
-                        let mut first = rule_steps(rule);
-                        first.extend(pref_steps(p, res));
-                        first.extend(bc.list.clone());
-                        first.extend(hist1);
-                        out.push(assemble(first, hist2, gdep(v, vec![bucket(res, false)], &bc)));
-                    }
+                    let (res, hist1, hist2) = hist_steps(h);
+                    let bc = badge_lite(k);
+                    let mut first = rule_steps(rule);
+                    first.extend(pref_steps(p, res));
+                    first.extend(bc.list.clone());
+                    first.extend(hist1);
+                    let deps = Variant::ALL.iter().map(|v| gdep(*v, vec![bucket(res, false)], &bc)).collect();
+                    assemble(&mut out, first, hist2, deps);
                 }
             }
         }
@@ -177,16 +183,18 @@ pub fn table() -> Vec<Case> {
     ];
     for (st, res) in &states {
         for l in &lists {
+            let mut first = st.clone();
+            first.extend(l.iter().map(|b| Step::AddDep(b.clone())));
+            let mut deps = vec![];
             for n in &named {
                 for (ps, pl) in &proofs {
                     for v in Variant::ALL {
-                        let mut first = st.clone();
-                        first.extend(l.iter().map(|b| Step::AddDep(b.clone())));
                         let bc = BadgeCombo { list: vec![], named: n.clone(), proofs: ps.clone(), placement: *pl };
-                        out.push(assemble(first, vec![], gdep(v, vec![bucket(*res, false)], &bc)));
+                        deps.push(gdep(v, vec![bucket(*res, false)], &bc));
                     }
                 }
             }
+            assemble(&mut out, first, vec![], deps);
         }
     }
     // ---- C: batch compositions over {XRD, FA, FB, NA}
@@ -215,12 +223,13 @@ pub fn table() -> Vec<Case> {
     }
     let batch_badges = [0usize, 2, 3, 4];
     for (ci, (c1, c2)) in configs.iter().enumerate() {
-        for (si, seq) in seqs.iter().enumerate() {
-            for k in batch_badges {
+        for k in batch_badges {
+            let bc = badge_lite(k);
+            let mut first = c1.clone();
+            first.extend(bc.list.clone());
+            let mut deps = vec![];
+            for (si, seq) in seqs.iter().enumerate() {
                 for v in [Variant::BatchRefund, Variant::BatchAbort] {
-                    let bc = badge_lite(k);
-                    let mut first = c1.clone();
-                    first.extend(bc.list.clone());
                     let buckets: Vec<BucketSpec> = seq.iter().enumerate().map(|(j, r)| bucket(*r, (si * 7 + j * 3 + ci) % 5 == 0)).collect();
                     let mut g = gdep(v, buckets, &bc);
                     let distinct = seq.iter().collect::<std::collections::BTreeSet<_>>().len() == seq.len();
@@ -229,9 +238,10 @@ pub fn table() -> Vec<Case> {
                         g.entire_worktop = true;
                     }
                     g.mint_source = (si + ci) % 3 == 0;
-                    out.push(assemble(first, c2.clone(), g));
+                    deps.push(g);
                 }
             }
+            assemble(&mut out, first, c2.clone(), deps);
         }
     }
     out
@@ -243,25 +253,24 @@ fn fill_ids(ids: &mut Vec<u64>, base: &mut Base) {
     }
 }
 
-pub fn instantiate(case: &Case, base: &mut Base) -> (TargetKind, Vec<Op>) {
-    let mut ops = case.ops.clone();
-    for op in ops.iter_mut() {
-        match op {
-            Op::Setup(steps) => {
-                for s in steps.iter_mut() {
-                    if let Step::OwnerDeposit { ids, .. } = s {
-                        fill_ids(ids, base);
-                    }
-                }
-            }
-            Op::Deposit(g) => {
-                for b in g.buckets.iter_mut() {
-                    fill_ids(&mut b.ids, base);
+pub fn instantiate(case: &Case, base: &mut Base) -> (TargetKind, Vec<Op>, Vec<GDep>) {
+    let mut setup = case.setup.clone();
+    for op in setup.iter_mut() {
+        if let Op::Setup(steps) = op {
+            for s in steps.iter_mut() {
+                if let Step::OwnerDeposit { ids, .. } = s {
+                    fill_ids(ids, base);
                 }
             }
         }
     }
-    (TargetKind::Virtual, ops)
+    let mut deposits = case.deposits.clone();
+    for g in deposits.iter_mut() {
+        for b in g.buckets.iter_mut() {
+            fill_ids(&mut b.ids, base);
+        }
+    }
+    (TargetKind::Virtual, setup, deposits)
 }
 
 // ---------------------------------------------------------------------------------------------
